@@ -10,7 +10,7 @@ use std::ffi::OsString;
 
 pub static DEF: PropDef = PropDef {
     id: "C19",
-    rule: "outcomes: sequences of 0-30 child outcomes over {exit 0, exit 1..125, exit 255, death by SIGTERM/SIGKILL/SIGUSR1/SIGINT/SIGSEGV-as-raise}, one invocation per outcome, 1 case in 6 with xargs' stderr connected to /dev/full (batching by -n k / -L k with k in 1..3 and exactly k arguments per invocation, or -I), delivered to the rec recorder through its script; fatal outcomes at every position, also after earlier ordinary failures; command kinds: rec, a missing name (bare and with a path), a non-executable file, a directory, an executable-bit file that is not an executable image (junk / empty); input modes default/-0/-d. Exhaustive sub-run: every outcome sequence of length <= 4 over the six outcome classes {0, 1, 125, 255, SIGTERM, SIGKILL}. own-errors: a table of usage and input errors (bad -n/-L/-s/-P/-d values, unknown option, -s smaller than the command, -s too small for one argument, unterminated quotes, missing -a file) each preceded by 0-3 successful or failing invocations where the error is raised lazily. Oracle: the exit-status automaton from the statement (0; 123 sticky after any exit 1..125; stop at first 255 -> 124, signal -> 125, cannot run -> 126, not found -> 127; own errors -> 1) compared with the xargs binary's status; the recorder's invocation count must equal the index of the stopping outcome + 1 (or all). Non-trivial = the sequence has an ordinary failure before a fatal outcome, or a fatal outcome that is not last, or (own-errors) the error follows at least one invocation. Distinct = distinct case JSON.",
+    rule: "outcomes: sequences of 0-30 child outcomes over {exit 0, exit 1..125, exit 255, death by SIGTERM/SIGKILL/SIGUSR1/SIGINT/SIGSEGV-as-raise}, one invocation per outcome, 1 case in 6 with xargs' stderr connected to /dev/full (batching by -n k / -L k with k in 1..3 and exactly k arguments per invocation, or -I), delivered to the rec recorder through its script; fatal outcomes at every position, also after earlier ordinary failures; command kinds: rec (1 in 5 named bare and found through a PATH whose first directories hold a non-executable file of that name, a directory of that name, or do not exist), a missing name (bare and with a path), a non-executable file, a directory, an executable-bit file that is not an executable image (junk / empty); input modes default/-0/-d. Exhaustive sub-run: every outcome sequence of length <= 4 over the six outcome classes {0, 1, 125, 255, SIGTERM, SIGKILL}. own-errors: a table of usage and input errors (bad -n/-L/-s/-P/-d values, unknown option, -s smaller than the command, -s too small for one argument, unterminated quotes, missing -a file) each preceded by 0-3 successful or failing invocations where the error is raised lazily. Oracle: the exit-status automaton from the statement (0; 123 sticky after any exit 1..125; stop at first 255 -> 124, signal -> 125, cannot run -> 126, not found -> 127; own errors -> 1) compared with the xargs binary's status; the recorder's invocation count must equal the index of the stopping outcome + 1 (or all). Non-trivial = the sequence has an ordinary failure before a fatal outcome, or a fatal outcome that is not last, or (own-errors) the error follows at least one invocation. Distinct = distinct case JSON.",
     assumptions: &[
         "child exit codes 126-254 are not generated (the statement does not fix them)",
         "an own error raised while reading input (unterminated quote, oversized argument) after a child already exited 255 / died is governed by the earlier fatal outcome (xargs stops at once)",
